@@ -3,7 +3,7 @@
    Drift-tagged banks scale the deposit limit to 9 decimals (scale_drift_deposit_limit): the cap
    statements below are for the other tags (the scaled comparison is covered by the correspondence). *)
 Require Import Base Constants Fixed Curve Bank BankOps FixedLemmas BankLemmas ValueLemmas.
-Require Import Risk TransferFee Handlers SolvencyWorld HandlerWorld CapsHandlers.
+Require Import Risk TransferFee Handlers SolvencyWorld HandlerWorld CapsHandlers CapErrLemmas UpToLimit.
 Local Open Scope Z_scope.
 
 (* after any successful deposit (or repayment overflow) that mints shares, total deposits are
@@ -81,3 +81,23 @@ Proof. exact h_withdraw_keeps_utilisation. Qed.
 Print Assumptions C17_deposit_instruction_respects_limit.
 Print Assumptions C17_borrow_instruction_respects_limit_and_utilisation.
 Print Assumptions C17_withdraw_instruction_keeps_utilisation.
+
+(* a deposit flagged "up to limit" NEVER fails with BankAssetCapacityExceeded (nc r := r <> Err (E E_BankAssetCapacityExceeded)),
+   from every well-formed world, for every amount: the capacity is computed on the accrued bank (fix 0857a8b8 in /repo) *)
+Theorem C17_up_to_limit_never_fails_for_capacity :
+  forall w a b n, HOk2 w -> 0 <= n -> h_deposit w a b n true <> Err (E E_BankAssetCapacityExceeded).
+Proof. exact h_deposit_up_to_limit_never_exceeds. Qed.
+
+(* and it books exactly min(requested amount, remaining capacity of the accrued bank) *)
+Theorem C17_up_to_limit_books_min :
+  forall w a b n w' hb hb', h_deposit w a b n true = Ok w' -> nth_bank w b = Ok hb -> nth_bank w' b = Ok hb' ->
+  exists bk1 c, accrue_interest (hb_b hb) (hw_pf w) (hw_now w) = Ok bk1 /\ remaining_deposit_capacity bk1 = Ok c /\
+    ( (Z.min n c = 0 /\ hb' = set_hb_b bk1 hb)
+      \/ exists ac i la1 bl bk2 bl2, nth_acct w a = Ok ac /\
+           wrapper_find_or_create (bank_pk b) bk1 (ha_la ac) (hw_now w) = Ok (i, la1) /\ nth_res i la1 = Ok bl /\
+           increase_balance bk1 bl (t64 w) (of_int (Z.min n c)) IncDepositOnly = Ok (bk2, bl2) /\
+           b_tas (hb_b hb') = b_tas bk2 /\ b_asv (hb_b hb') = b_asv bk2 ).
+Proof. exact h_deposit_up_to_limit_amount. Qed.
+
+Print Assumptions C17_up_to_limit_never_fails_for_capacity.
+Print Assumptions C17_up_to_limit_books_min.
